@@ -312,6 +312,9 @@ func run(c Case) error {
 		if fx.IsInconclusive(err) {
 			return err
 		}
+		if (c.Transport == "kcp" || c.Transport == "quic") && strings.Contains(err.Error(), "timeout") {
+			return fx.Inconclusive("legitimate login over %s got no answer: %v", c.Transport, err)
+		}
 		return fmt.Errorf("legitimate login refused: %v", err)
 	}
 	defer by.Close()
@@ -428,6 +431,11 @@ func run(c Case) error {
 				}
 				if fx.IsInconclusive(e) {
 					return e
+				}
+				if (c.Transport == "kcp" || c.Transport == "quic") && strings.Contains(e.Error(), "timeout") {
+					// no answer at all over a datagram transport on a saturated machine is not a refusal (seen once in a
+					// thorough run with three other thorough runs going on, never reproduced from the saved case)
+					return fx.Inconclusive("step %d: valid login over %s got no answer: %v", i, c.Transport, e)
 				}
 				return fmt.Errorf("step %d: valid login refused: %v", i, e)
 			}
